@@ -1,13 +1,119 @@
 import HC.Proto.H11
 import HC.Props.C06
+import HC.Extracted.AppExit
 /-!
 # C05 — application failures are contained and never yield a falsely complete response
 
-`Http.appSend s none` / `Ws.appSend … none` is what `TaskGroup._handle` always does when the application returns or
-raises (`finally: await send(None)`).
+`Http.appSend s none` / `Ws.appSend … none` is what `TaskGroup._handle` always does when the application returns,
+raises or is cancelled (`finally: await send(None)`): the first section proves exactly that about the `try` statement
+the extractor reads off both workers' `_handle`.  The second section proves that a message the stream refuses (the
+exception is raised into the application, which then dies with it) starts nothing: the stream stays in the state that
+makes the completion signal answer 500 — both for the model (`Http.appSend`) and for the statement order of the
+REQUEST-state branches as they stand in the source.
 -/
 namespace HC.Props.C05
 open HC HC.Stream HC.Lib HC.Proto.H11 HC.Extracted.H11Tables
+open HC.Stream.AppExit HC.Extracted.AppExit
+
+/-! ### `_handle`: every way the application can end signals completion -/
+
+/-- **completion is signalled however the application ends** — return, exception, cancellation (a `CancelledError` /
+    `Cancelled` leaving the application), exception groups of either kind; on both workers -/
+theorem completion_always_signalled (e : Exit) :
+    0 < signals (run asyncioHandle e) ∧ 0 < signals (run trioHandle e) := by
+  cases e <;> decide
+
+/-- **a raising application is logged exactly once, before completion is signalled, and the exception goes no further**
+    (so the connection's task group, i.e. its other streams, never sees it) -/
+theorem failure_logged_once_and_contained (e : Exit) (h : e = .exception ∨ e = .groupErrors) :
+    logs (run asyncioHandle e) = 1 ∧ (run asyncioHandle e).2 = false ∧ (run asyncioHandle e).1.head? = some .log ∧
+    logs (run trioHandle e) = 1 ∧ (run trioHandle e).2 = false ∧ (run trioHandle e).1.head? = some .log := by
+  rcases h with h | h <;> subst h <;> decide
+
+/-- an application that returns or is cancelled is not an error: nothing is logged -/
+theorem quiet_exits_not_logged (e : Exit) (h : e = .returned ∨ e = .cancelled ∨ e = .groupCancelled) :
+    logs (run asyncioHandle e) = 0 ∧ logs (run trioHandle e) = 0 := by
+  rcases h with h | h | h <;> subst h <;> decide
+
+/-- a cancellation is passed on (after completion was signalled), never swallowed -/
+theorem cancellation_passed_on :
+    (run asyncioHandle .cancelled) = ([.sendNone], true) ∧ (run trioHandle .cancelled) = ([.sendNone], true) := by decide
+
+/-! ### a refused message starts nothing -/
+
+/-- reading `commitsAfterSend` -/
+theorem commitsAfterSend_spec (prog : List BStep) (h : commitsAfterSend prog = true) (k : Nat) (hk : k < prog.length)
+    (hs : (runBranch prog (some k) {}).responseSent = false) : (runBranch prog (some k) {}).st = .request := by
+  simp only [commitsAfterSend, List.all_eq_true, List.mem_range] at h
+  have := h k hk
+  simp [hs] at this
+  exact this
+
+/-- **the source's REQUEST-state branches move `self.state` only after the `Response` event was handed over**: wherever
+    `http.response.start` (or trailers-before-start, or an early hint) is left by an exception — header validation,
+    `int(status)`, the protocol's own refusal — the stream is still in REQUEST unless the response head went out -/
+theorem request_branches_commit_after_send :
+    commitsAfterSend httpStartBranch = true ∧ commitsAfterSend httpTrailersStartBranch = true ∧
+    commitsAfterSend httpEarlyHintBranch = true := by decide
+
+/-- and when nothing raises, `http.response.start` hands over the head and leaves the stream in RESPONSE -/
+theorem start_branch_completes : runBranch httpStartBranch none {} = { st := .response, responseSent := true } := by decide
+
+/-- **model: a message refused in REQUEST hands nothing to the protocol and leaves the stream in REQUEST; when the
+    application then ends (it dies with the exception) the client is answered 500** -/
+theorem refused_before_start_then_exit_500 (s : Http.S) (m : Http.Msg) (e : PyErr) (hst : s.st = .request) (hc : s.closed = false)
+    (hm : ∀ h mo, m ≠ .trailers h mo) (herr : (Http.appSend s (some m)).2.2 = some e) :
+    (Http.appSend s (some m)).2.1 = [] ∧ (Http.appSend s (some m)).1.st = .request ∧
+    (Http.appSend (Http.appSend s (some m)).1 none).2.1 =
+      [.response 500 [("content-length".b, "0".b), ("connection".b, "close".b)], .endBody, .access (some 500), .streamClosed] := by
+  have key : (Http.appSend s (some m)).2.1 = [] ∧ (Http.appSend s (some m)).1.st = .request ∧ (Http.appSend s (some m)).1.closed = false := by
+    cases m with
+    | trailers h mo => exact absurd rfl (hm h mo)
+    | start st hs tr =>
+      simp only [Http.appSend, hst, if_true] at herr ⊢
+      repeat' split
+      all_goals simp_all
+    | body b mo => simp [Http.appSend, hst, hc]
+    | other => simp [Http.appSend, hst, hc]
+    | push p hs =>
+      simp only [Http.appSend] at herr ⊢
+      repeat' split
+      all_goals simp_all
+    | earlyHint ls =>
+      simp only [Http.appSend] at herr ⊢
+      repeat' split
+      all_goals simp_all
+  obtain ⟨k1, k2, k3⟩ := key
+  refine ⟨k1, k2, ?_⟩
+  generalize (Http.appSend s (some m)).1 = s' at k2 k3 ⊢
+  simp [Http.appSend, k2, k3]
+
+/-- **model: a message refused after the response start changes nothing; the application's end then only closes the
+    stream (no end-of-body)** -/
+theorem refused_after_start_then_exit_aborts (s : Http.S) (m : Http.Msg) (e : PyErr) (hst : s.st = .response) (hc : s.closed = false)
+    (herr : (Http.appSend s (some m)).2.2 = some e) :
+    (Http.appSend s (some m)).2.1 = [] ∧ (Http.appSend s (some m)).1 = s ∧
+    Http.appSend (Http.appSend s (some m)).1 none = (s, [.streamClosed], none) := by
+  have key : (Http.appSend s (some m)).2.1 = [] ∧ (Http.appSend s (some m)).1 = s := by
+    cases m with
+    | body b mo =>
+      simp only [Http.appSend, Http.sendClosed] at herr ⊢
+      repeat' split
+      all_goals simp_all
+    | start st hs tr => simp [Http.appSend, hst]
+    | other => simp [Http.appSend]
+    | trailers h mo => simp [Http.appSend, hst]
+    | push p hs =>
+      simp only [Http.appSend] at herr ⊢
+      repeat' split
+      all_goals simp_all
+    | earlyHint ls => simp [Http.appSend, hst]
+  refine ⟨key.1, key.2, ?_⟩
+  rw [key.2]
+  simp [Http.appSend, hst, hc]
+
+example : (Http.appSend { method := "GET", version := "1.1" } (some (.start (some 200) (some [(.str "x-a", .str "1")]) false))).2.2 = some .typeError ∧
+    (Http.appSend { method := "GET", version := "1.1" } (some (.start (some 200) (some [(.str "x-a", .str "1")]) false))).1.st = .request := by decide
 
 /-- **no response started ⇒ exactly a complete 500**: head with `content-length: 0` and `connection: close`,
     end-of-body, one access record, stream-closed -/
@@ -84,7 +190,7 @@ theorem h1_crash_step (cfg : Cfg) (st : St) (i : Nat) (s : Http.S)
 
 /-- **WebSocket**: ending in the handshake answers 500; ending while connected sends close 1011; both then close the stream -/
 theorem ws_crash_handshake (token : Bytes → Bytes) (ext : Option Bytes) (s : Ws.S) (hst : s.st = .handshake) (hc : s.closed = false) :
-    Ws.appSend token ext s none = (s, Ws.errorResponse 500 ++ [.access 500, .streamClosed], none) := by
+    Ws.appSend token ext s none = (s, Ws.errorResponse 500 ++ [.streamClosed], none) := by      -- one access record (inside errorResponse)
   simp [Ws.appSend, hst, hc]
 
 theorem ws_crash_connected (token : Bytes → Bytes) (ext : Option Bytes) (s : Ws.S) (hst : s.st = .connected) (hc : s.closed = false)
